@@ -13,6 +13,7 @@ import Bng.Model.KeySpec
     load n1:s:c,… | -         => ok|conflict fwd … rev … maps <k> cur <s>
     stats                     => <allocations> <stagsInUse>
     dump                      => fwd n1=s.c,…|- rev s.c=n1,…|- maps <k> cur <s>
+    stress <seed> <g> <n>     => anomalies <k> fwd … rev … maps <k> cur <s>     (last op; schedule dependent, monitor only)
 -/
 namespace Bng.Drv.VlanDrv
 open Bng Bng.Drv Bng.Vlan
@@ -120,6 +121,20 @@ def step (st : St) (toks : List String) (impl : String) : St × LineResult :=
     | some a, some b, some c, some d =>
       ({ model := some (init { sS := a, sE := b, cS := c, cE := d }), mon := {} }, { modelObs := "ok" })
     | _, _, _, _ => (st, { modelObs := "badop" })
+  | ["stress", _, _, _] =>
+    -- concurrency run (-race build): the outcome depends on the schedule, so the model does not predict it — the
+    -- model's observation is the implementation's, verbatim; the MONITOR judges the final tables with the usual
+    -- clauses (no pair twice, reverse = inverse of forward, everything in range, no in-goroutine anomaly).
+    -- No finding may excuse this workload (in-range tags only): clause none.  Afterwards the model is gone.
+    match st.model, splitTokens impl with
+    | some m, ["anomalies", a, "fwd", f, "rev", r, "maps", _, "cur", _] =>
+      match parseFwd f, parseRev r with
+      | some f, some r =>
+        let (_, vs) := KeySpec.check st.mon (.adopt f f r (f.filter fun p => !keyInRange m.cfg p.2))
+        let vs := if a == "0" then vs else ("range", s!"{a} answers outside the ranges during the concurrent run") :: vs
+        ({ model := none, mon := {} }, { modelObs := impl, viols := vs.map fun (n, d) => (n, "none", d) })
+      | _, _ => ({ model := none, mon := {} }, { modelObs := "badobs" })
+    | _, _ => ({ model := none, mon := {} }, { modelObs := "badobs" })
   | _ =>
     match st.model, parseOp toks with
     | some m, some op =>
